@@ -2,7 +2,8 @@
    (about Model/ValOps.v; ints are mathematical integers with the i32 range test, floats are binary64). *)
 From Coq Require Import List ZArith Floats.
 Import ListNotations.
-From Exmex.Model Require Import Base ValOps.
+From Exmex.Model Require Import Base Lexer ValOps.
+From Exmex.Gen Require Import Tables.
 From Exmex.Proofs Require Import ValFacts.
 Open Scope Z_scope.
 
@@ -63,6 +64,45 @@ Theorem C16_if_else : forall a b, a <> VNone ->
   v_else (v_if a (VBool true)) b = a /\ v_else (v_if a (VBool false)) b = b.
 Proof. exact if_else. Qed.
 
+(* "Expressions over these operators obey the same precedence semantics as any other table": constant folding regroups the
+   literal operands of an operator that the table flags commutative, which is invisible only for an associative operator.
+   The flagged operators of the value table AS REGENERATED FROM THE IMPLEMENTATION ON THIS RUN are exactly + dot * | & XOR
+   (defect F11: && and || carried the flag; they are not associative across value kinds -- second theorem); on integers
+   | & XOR are associative, and so are + and * wherever no intermediate sum or product leaves the range (an overflow is
+   an error value, which regrouping can move: `x + 1 + -1` at x = MAX). *)
+Theorem C16_flagged_operators_of_the_value_table :
+  map repr (filter (fun o => match obin o with Some b => comm b | None => false end) val_table)
+  = [ [43]%N; [100;111;116]%N; [42]%N; [124]%N; [38]%N; [88;79;82]%N ].
+Proof. vm_compute. reflexivity. Qed.
+
+Theorem C16_logical_operators_are_not_associative :
+  (exists a b c, v_and (v_and a b) c <> v_and a (v_and b c)) /\ (exists a b c, v_or (v_or a b) c <> v_or a (v_or b c)).
+Proof.
+  split.
+  - exists (VBool false), (VInt 1), (VBool true). vm_compute. discriminate.
+  - exists (VBool true), (VInt 1), (VBool false). vm_compute. discriminate.
+Qed.
+
+Theorem C16_flagged_integer_operators_are_associative : forall a b c : Z,
+  v_bor (v_bor (VInt a) (VInt b)) (VInt c) = v_bor (VInt a) (v_bor (VInt b) (VInt c)) /\
+  v_band (v_band (VInt a) (VInt b)) (VInt c) = v_band (VInt a) (v_band (VInt b) (VInt c)) /\
+  v_bxor (v_bxor (VInt a) (VInt b)) (VInt c) = v_bxor (VInt a) (v_bxor (VInt b) (VInt c)) /\
+  (in_range (a + b) = true -> in_range (b + c) = true ->
+     v_add (v_add (VInt a) (VInt b)) (VInt c) = v_add (VInt a) (v_add (VInt b) (VInt c))) /\
+  (in_range (a * b) = true -> in_range (b * c) = true ->
+     v_mul (v_mul (VInt a) (VInt b)) (VInt c) = v_mul (VInt a) (v_mul (VInt b) (VInt c))).
+Proof.
+  intros a b c. repeat split.
+  - cbn. rewrite Z.lor_assoc. reflexivity.
+  - cbn. rewrite Z.land_assoc. reflexivity.
+  - cbn. rewrite Z.lxor_assoc. reflexivity.
+  - intros H1 H2. unfold v_add. cbn [base_arith]. unfold checked. rewrite H1, H2. cbn [base_arith]. unfold checked. rewrite Z.add_assoc. reflexivity.
+  - intros H1 H2. unfold v_mul. cbn [base_arith]. unfold checked. rewrite H1, H2. cbn [base_arith]. unfold checked. rewrite Z.mul_assoc. reflexivity.
+Qed.
+
 Print Assumptions C16_int_results_in_range.
 Print Assumptions C16_promotion.
 Print Assumptions C16_error_propagates.
+Print Assumptions C16_flagged_operators_of_the_value_table.
+Print Assumptions C16_logical_operators_are_not_associative.
+Print Assumptions C16_flagged_integer_operators_are_associative.
